@@ -82,7 +82,7 @@ fn is_first_of_file(cs: &ConfStream, li: usize, pi: usize) -> bool {
     pi == 0 && cs.stream.order.first() == Some(&li)
 }
 
-pub const N_ENTRIES: usize = 44;
+pub const N_ENTRIES: usize = 48;
 
 /// apply catalogue entry `e` ; None if not applicable to this stream
 pub fn apply_fault(e: usize, t: &mut Tape, cs: &mut ConfStream) -> Option<Fault> {
@@ -396,6 +396,102 @@ pub fn apply_fault(e: usize, t: &mut Tape, cs: &mut ConfStream) -> Option<Fault>
             let (sp, sw) = f.start_candidates[0];
             Some(Fault { name: "stave:frame_without_data".into(), codes: vec!["701"], loc: Loc::Word(li, sp, sw), active: vec![Mode::AllItsStave], stateful: true, value_class: "no data".into() })
         }
+        44 => {
+            // CDW whose user field differs from the previous CDW of the link while its index is not 0
+            let mut cands = vec![];
+            for (li, l) in cs.stream.links.iter().enumerate() {
+                let mut seen_cdw = false;
+                for (pi, p) in l.packets.iter().enumerate() {
+                    for (wi, w) in p.words.iter().enumerate() {
+                        if w[9] == ID_CDW {
+                            if seen_cdw {
+                                cands.push((li, pi, wi));
+                            }
+                            seen_cdw = true;
+                        }
+                    }
+                }
+            }
+            if cands.is_empty() {
+                return None;
+            }
+            let (li, pi, wi) = cands[t.below(cands.len())];
+            let w = &mut cs.stream.links[li].packets[pi].words[wi];
+            w[0] ^= 0x5A; // user field changes
+            w[1] ^= 0xA5;
+            if w[6] == 0 && w[7] == 0 && w[8] == 0 {
+                w[6] = 1 + t.below(255) as u8; // index != 0
+            }
+            Some(Fault { name: "cdw:index_not_reset".into(), codes: vec!["81"], loc: Loc::Word(li, pi, wi), active: RUN_ITS.to_vec(), stateful: true, value_class: "index!=0".into() })
+        }
+        45 | 46 | 47 => {
+            // stave level faults on a single-page frame of a link without earlier fatal lanes
+            let mut cands = vec![];
+            for (li, m) in cs.metas.iter().enumerate() {
+                let mut fatal_seen = false;
+                for (fi, f) in m.frames.iter().enumerate() {
+                    if f.lanes.iter().any(|l| l.fatal_ape.is_some()) {
+                        fatal_seen = true;
+                        continue;
+                    }
+                    if f.pages == 1 && !fatal_seen && f.lanes.len() >= 2 {
+                        cands.push((li, fi));
+                    }
+                }
+            }
+            if cands.is_empty() {
+                return None;
+            }
+            let (li, fi) = cands[t.below(cands.len())];
+            let f = cs.metas[li].frames[fi].clone();
+            let pi = f.end.0;
+            let start_w = f.start_candidates.last().unwrap().1;
+            let end_w = f.end.1;
+            let ib = cs.stream.links[li].barrel == Barrel::Inner;
+            let (sp, sw) = f.start_candidates[0];
+            let p = &mut cs.stream.links[li].packets[pi];
+            match e {
+                45 => {
+                    // one lane loses all its data words: wrong number of lanes
+                    let victim = f.lanes[t.below(f.lanes.len())].id;
+                    let mut k = end_w;
+                    while k > start_w + 1 {
+                        k -= 1;
+                        if p.words[k][9] == victim {
+                            p.words.remove(k);
+                            p.frame_of_word.remove(k);
+                        }
+                    }
+                    p.fix_sizes();
+                    Some(Fault { name: "stave:lane_missing".into(), codes: vec![if ib { "72" } else { "73" }], loc: Loc::Word(li, sp, sw), active: vec![Mode::AllItsStave], stateful: true, value_class: if ib { "IB" } else { "OB" }.into() })
+                }
+                46 => {
+                    // the bunch counter of one chip differs: the byte after the first chip header / empty-frame word of a lane
+                    let lane = f.lanes.iter().find(|l| l.pad_before == 0 && !l.chips.is_empty())?;
+                    let first = (start_w + 1..end_w).find(|k| p.words[*k][9] == lane.id)?;
+                    let b0 = p.words[first][0];
+                    if b0 & 0xF0 != 0xA0 && b0 & 0xF0 != 0xE0 {
+                        return None;
+                    }
+                    p.words[first][1] = p.words[first][1].wrapping_add(1 + t.below(200) as u8);
+                    Some(Fault { name: "stave:chip_bunch_counter".into(), codes: vec![if ib { "74" } else { "75" }], loc: Loc::Word(li, sp, sw), active: vec![Mode::AllItsStave], stateful: true, value_class: if ib { "IB" } else { "OB" }.into() })
+                }
+                _ => {
+                    // inner barrel: chip id differs from the lane number
+                    if !ib {
+                        return None;
+                    }
+                    let lane = f.lanes.iter().find(|l| l.pad_before == 0 && l.chips.len() == 1)?;
+                    let first = (start_w + 1..end_w).find(|k| p.words[*k][9] == lane.id)?;
+                    let b0 = p.words[first][0];
+                    if b0 & 0xF0 != 0xA0 && b0 & 0xF0 != 0xE0 {
+                        return None;
+                    }
+                    p.words[first][0] = (b0 & 0xF0) | ((b0 & 0x0F) + 1 + t.below(14) as u8) % 16;
+                    Some(Fault { name: "stave:ib_chip_id".into(), codes: vec!["74"], loc: Loc::Word(li, sp, sw), active: vec![Mode::AllItsStave], stateful: true, value_class: "IB".into() })
+                }
+            }
+        }
         _ => None,
     }
 }
@@ -422,7 +518,7 @@ fn case(t0: &mut Tape, w: &Worker) -> CaseResult {
     };
     // E701 may be reported at any admissible frame start: collect them
     let mut accept_offs = vec![expect_off];
-    if fault.name.as_str() == "stave:frame_without_data" {
+    if fault.name.starts_with("stave:") {
         if let Loc::Word(li, _, _) = &fault.loc {
             for f in &cs.metas[*li].frames {
                 if f.start_candidates.iter().any(|(p, wd)| cs.stream.word_offset(&lay, cs.stream.global_index(&lay, *li, *p), *wd) == expect_off) {
@@ -509,10 +605,10 @@ fn case(t0: &mut Tape, w: &Worker) -> CaseResult {
 pub fn build() -> Property {
     Property {
         id: "C02",
-        rule: "Generated: (conforming G_conf stream, one of 44 fault-catalogue entries, position, boundary value). Catalogue = one or more mutations per rule of doc/checks_list.md and per error-code family of the README: \
+        rule: "Generated: (conforming G_conf stream, one of 48 fault-catalogue entries, position, boundary value). Catalogue = one or more mutations per rule of doc/checks_list.md and per error-code family of the README: \
                18 RDH sanity entries (header id, size, FEE layer 7 / stave 48..63 / each reserved bit, priority, reserved words, BC 0xDEC.., stop bit > 1, trigger 0 / each spare bit, detector bits 12..23, DW 2.., format 3.., system id), \
                4 RDH running entries (pages counter, trigger / orbit changed inside an HBF, same orbit after stop), padding > 15, identifier and reserved-bit rules of IHW/TDH/TDT/DDW0 (+ TDH without trigger, DDW0 index), unknown identifiers in the three choice states \
-               with boundary ids, lane not active, OB input 7, DDW0 with stop 0 / page 0, IHW on a stop page, continuation bit wrong either way, continuation TDH differing in bc / orbit / type, TDH orbit / bc / type vs RDH, decreasing TDH bc, stave-level frame without data. \
+               with boundary ids, lane not active, OB input 7, DDW0 with stop 0 / page 0, IHW on a stop page, continuation bit wrong either way, continuation TDH differing in bc / orbit / type, TDH orbit / bc / type vs RDH, decreasing TDH bc, CDW index not reset, stave-level frame without data / lane missing / chip bunch counter / inner-barrel chip id. \
                Each mutation is made on the spec so that everything else stays conforming. Executed on the real CLI in all five modes with -E n. Oracle: in every mode where the rule is documented as active an error of the family at the layout-map offset of the mutated RDH / word \
                and exit n; a purely stateful entry is not reported by `check sanity*`, which stay completely silent (exit 0). Follow-on errors elsewhere are allowed. Distinct = (entry, value class, position class, mode).",
         assumptions: vec![
